@@ -908,4 +908,44 @@ theorem proof_read_ok_edge_bits (w ps : Nat) (bs : Bytes) (ns : List Nat)
 example : readProof 64 8 (List.replicate 64 0) = none ∧ readProof 0 8 [] = none ∧
     readProof 10 8 (List.replicate 10 0) = some (List.replicate 8 0) := by decide +kernel
 
+/-- **A truncated proof is refused**: with fewer bytes behind the edge-bits byte than
+`pack_len(edge_bits)` nothing is read, whatever the bytes are; the empty input is refused too. -/
+theorem proof_stream_truncated_refused (ps w : Nat) (rest : Bytes) (h : rest.length < packLen w ps) :
+    readProofStream ps (w :: rest) = none := by
+  simp only [readProofStream, h, if_true]
+  split
+  · rfl
+  split <;> rfl
+
+/-- an accepted stream carried legal edge bits, yielded exactly `ps` nonces and consumed exactly
+`1 + pack_len(edge_bits)` bytes -/
+theorem proof_stream_ok (ps : Nat) (bs : Bytes) (w : Nat) (ns : List Nat) (r : Nat)
+    (h : readProofStream ps bs = some (w, ns, r)) :
+    1 ≤ w ∧ w ≤ 63 ∧ ns.length = ps ∧ bs.length = 1 + packLen w ps + r ∧
+    readProof w ps ((bs.drop 1).take (packLen w ps)) = some ns := by
+  unfold readProofStream at h
+  split at h
+  · cases h
+  rename_i w' rest
+  split at h
+  · cases h
+  split at h
+  · cases h
+  split at h
+  · cases h
+  rename_i hlen
+  split at h
+  · cases h
+  rename_i ns' hr
+  cases h
+  obtain ⟨h1, h2, _, h4⟩ := proof_read_ok_edge_bits _ _ _ _ hr
+  refine ⟨h1, h2, h4, ?_, by simpa using hr⟩
+  simp only [List.length_cons]
+  omega
+
+example : readProofStream 8 (10 :: List.replicate 9 0) = none ∧
+    readProofStream 8 (10 :: List.replicate 10 0) = some (10, List.replicate 8 0, 0) ∧
+    readProofStream 8 (10 :: List.replicate 12 0) = some (10, List.replicate 8 0, 2) ∧
+    readProofStream 8 [] = none ∧ readProofStream 8 [10] = none := by decide +kernel
+
 end GV.Props.C05
